@@ -359,3 +359,35 @@ Proof. exact StatIsDirEq.Stat_IsDir_src_eq. Qed.
 Print Assumptions sameFile_src_eq.
 Print Assumptions sameFile_content_src_eq.
 Print Assumptions Stat_IsDir_src_eq.
+
+(* pathChange (nil pointers = None, the ChangeKind iota constants read from the source: kind_code = 0/1/2
+   for add/modify/delete, ComparePath through its own translation): exactly the case distinction of the
+   model's merge step; both nil is the panic (no result), which diff_loop never asks for.
+   diff_loop_step restates Diff.diff_loop through that case distinction on the heads of the listings. *)
+From FS Require Proofs.Src.PathChangeEq.
+Theorem pathChange_src_eq : forall lo up,
+  SrcFns.pathChange lo up =
+  match option_map SrcFns.currentPath_path lo, option_map SrcFns.currentPath_path up with
+  | None, None => None
+  | None, Some b => Some (PathChangeEq.kind_code KAdd, b)
+  | Some a, None => Some (PathChangeEq.kind_code KDelete, a)
+  | Some a, Some b =>
+    Some (match compare_path a b with
+          | Lt => (PathChangeEq.kind_code KDelete, a)
+          | Gt => (PathChangeEq.kind_code KAdd, b)
+          | Eq => (PathChangeEq.kind_code KModify, b)
+          end)
+  end.
+Proof. exact PathChangeEq.pathChange_src_eq_cases. Qed.
+Theorem diff_loop_step : forall flt d f rm A B,
+  diff_loop flt d (S f) rm A B =
+  match PathChangeEq.merge_step (option_map st_path (hd_error A)) (option_map st_path (hd_error B)), A, B with
+  | None, _, _ => Some []
+  | Some (KAdd, _), _, b :: B' => let '(o, r) := step_add b in emit o (diff_loop flt d f r A B')
+  | Some (KDelete, _), a :: A', _ => let '(o, r) := step_del rm a in emit o (diff_loop flt d f r A' B)
+  | Some (KModify, _), a :: A', b :: B' => let '(o, r) := step_mod flt d a b in emit o (diff_loop flt d f r A' B')
+  | _, _, _ => Some []
+  end.
+Proof. exact PathChangeEq.diff_loop_step. Qed.
+Print Assumptions pathChange_src_eq.
+Print Assumptions diff_loop_step.
